@@ -7,7 +7,7 @@ import random
 from .. import buffer_drv as B
 
 PROP = 'C07'
-READY = False
+READY = True
 PROPS_MODULE = 'C07'
 MODEL_TARGETS = ['theories/Case_C07.vo']
 HEADER = B.HEADER + '\nRequire Import Aiuti.Case_C07.'
@@ -36,6 +36,7 @@ def corpus():
          'SWwWKw',                                # several waiters
          'X', 'SX', 'SpX', 'gX', 'SgX', 'EX', 'SpFX', 'SWX', 'SpSX',   # shutdown at every stage
          'cWuK', 'ScWupK', 'SpkWupK',             # foreign halves of _put around a wait
+         'cUK', 'cVpK', 'SpcKUK', 'SpcKVpK', 'SpkUK', 'ScUK',   # foreign thread: submit, then wait_from_anywhere()
          'SpBK', 'SpbK', 'SpBFpK', 'BK', 'bpK', 'SBK', 'gBeK', 'SpSBKK', 'SpBpKK']   # submit + wait() in the same task step
     return [c for c in (B.letters_case(T, w) for T in (8, 100) for w in W) if c]
 
@@ -46,7 +47,7 @@ def gen_exhaustive(tier, seed):
     # Shutdown at every quiescent point of every short program
     out += B.word_cases('SLEagyfempKFWw', L - 1, tail=False, suffixes=('X',))
     out.append(B.letters_case(8, 'X'))
-    out += B.foreign_cases(base_alpha='SgyepKFWw', maxlen=3 if tier == 'quick' else 4)
+    out += B.foreign_cases(base_alpha='SgyepKFWw', maxlen=3 if tier == 'quick' else 4, puts='uUV')
     # submit-then-wait in one task step (no loop iteration in between) at every point of short programs
     out += B.word_cases('SBbpKFW', L)
     return out
@@ -66,10 +67,41 @@ def gen_search(tier, seed):
     prof = dict(PROFILE, max=30, p_wait=0.3)
     return [B.rand_case(rnd, prof) for _ in range(6000)] + B.word_cases(ALPHA, 5)[:20000]
 
-RULE = ''
-EXHAUSTIVE_NOTE = ''
-ASSUMPTIONS = []
-TRUSTED = []
-LEVEL_TEXT = ''
-LEVEL_NOTE = ''
-TECHNIQUE = ''
+RULE = ('cases = (timeout T, list of external events) run against the real aiuti.asyncio.BufferAsyncCalls under the virtual-time '
+        'loop (events as for C03) with wait(cancel=True/False) at any quiescent point, several concurrent waiters, submit+wait in one '
+        'task step from the loop thread (buffer(x); await wait()) and from a foreign thread (second half of _put immediately followed '
+        'by wait_from_anywhere() in that thread\'s own loop), and Shutdown = asyncio.runners._cancel_all_tasks semantics (cancel every '
+        'task in creation order, then advance 3 timeouts: a daemon that lives on or tasks that never finish are the observation Hang).  '
+        'corpus: named scenarios (wait while armed / running / gathering / loading one, empty and failing producers, several waiters, '
+        'shutdown at every stage, foreign halves around a wait) x 2 timeouts; exhaustive layer: every word of <=4 (quick) / <=5 '
+        '(thorough) letters over {plain, async iterable, yield, end, Advance T-1 / T+1, FnOk, FnFail, wait(True), wait(False)}, '
+        'Shutdown appended to every word of <=3 / <=4 letters over 14 letters, every word over {plain, submit+wait(True/False), '
+        'Advance T+1, FnOk, FnFail, wait(True)}, and one foreign submission (plain / + wait_from_anywhere cancel=True / False) split at '
+        'every pair of quiescent points of every program of <=3 / <=4 letters; random layer: programs of 6..22 events, about a fifth '
+        'waits, a fifth ending in Shutdown at a random cut.  non-trivial = (a wait returned and a call succeeded) or (the daemon ended '
+        'with at least one submission) (Case_C07.nontrivial, decided inside Coq); distinct = distinct (case, trace) pairs among those')
+EXHAUSTIVE_NOTE = ('all event words up to length 4 (quick) / 5 (thorough) over the 10-letter C07 alphabet at T=8; Shutdown at every '
+                   'quiescent point of every word up to length 3 / 4 over 14 letters; all placements of the two halves of one foreign '
+                   'submission (with and without wait_from_anywhere) in all programs up to length 3 / 4')
+ASSUMPTIONS = ['single event loop, cooperative: between two quiescent points nothing external happens except the scripted event (macro-step model, DESIGN §4); the one same-iteration reaction that matters for the barrier — submit immediately followed by wait() in the same task step, from the loop thread or from a foreign thread — is a scripted event of its own', 'time is virtual: integer ticks of 2^-10 s, a timer fires when now >= deadline', 'the sync-iterator helper thread of map() (to_async_iter, property C16) is collapsed to "immediately available"', 'foreign threads are represented by the two shared-state operations of _put (event.clear, call_soon_threadsafe) as separate events FClear / FPut at quiescent points, plus FnOkThenFClear for a clear landing between event.set() and the loop test; OS-thread fairness is not modelled']
+TRUSTED = ['harness/buffer_drv.py + harness/vloop.py (virtual-time driver of the real BufferAsyncCalls; gated stand-ins for the public attributes `event` and `loop` park a real foreign thread before each of the two operations of _put) and coq/theories/Case_Buffer.v (agree, input tracker)', 'modelled, not verified: asyncio.Queue (put_nowait/get/get_nowait/task_done/join), asyncio.Event, wait_for, gather, Task.cancel/cancelling, call_soon_threadsafe FIFO, run_coroutine_threadsafe, async generators'] + ['coq/theories/Case_C07.v (monitor ok: at each WaitRet every producer submitted before that wait is exhausted and all it '
+           'produced is in a successful call; no call after Shutdown, DaemonEnded exactly once after it; settled => no wait pending)']
+LEVEL_TEXT = ('BufferAsyncCalls is modelled step for step as an executable macro-step machine (coq/theories/Buffer.v).  props/C07.v '
+              'proves for ALL event lists: wait_barrier (whenever WaitRet w is observed, every argument handed over by a producer '
+              'submitted — own thread or foreign — before the accepted Wait w event is in a call that returned without error by then), '
+              'flag_means_all_delivered, join_counter (unfinished = queued + producer being loaded; queue empty while parked on get; '
+              'nobody inside join() once it is 0), wait_cancel_flushes_now, shutdown_terminates (DaemonEnded observed, nothing at all '
+              'observed afterwards, from every stage); and in histories without a bare foreign clear: idle_means_flag_set and '
+              'wait_returns (from any reachable live state with no slow producer in the way, FnOk; Advance>=timeout; FnOk makes every '
+              'pending wait() return — cancel or not, any number of waiters).  Tied to /repo by running the real class under a '
+              'virtual-time loop on the enumerated / random event lists, incl. real foreign threads going through the public API, and '
+              'comparing every observation with the model inside Coq (vm_compute); the monitor Case_C07.ok re-decides barrier / '
+              'shutdown / settled on the implementation trace.')
+LEVEL_NOTE = ('trusted: Coq kernel + vm_compute; no axioms (Print Assumptions: closed under the global context); asyncio primitives are '
+              'modelled and validated only by the correspondence runs; harness/buffer_drv.py, harness/vloop.py; Case_Buffer.v, Case_C07.v.  '
+              'The model describes the repaired code (fix F3: the daemon re-raises its own cancellation); the unrepaired behaviour is '
+              'the seeded regression revert-F3, which this check reports (Hang).  "Always returns" is the progress theorem over '
+              'event-list continuations, not a fairness proof.')
+TECHNIQUE = ('Coq proof (join-counter, completion-flag, waiter-provenance and per-producer invariants by induction over event lists; '
+             'the generic walk through the helpers exports what holds at every event.set()) + differential correspondence under a '
+             'virtual-time event loop with gated foreign threads, evaluated by vm_compute')
